@@ -700,6 +700,9 @@ pub struct Knobs {
     /// rare but legal shapes: component arrays, multi-dimensional arrays, `_` in tuple
     /// assignments, `<--` named inputs, long identifiers, non-ASCII log strings
     pub rare_shapes: bool,
+    /// a function may take the name of a template of the project (two name spaces in the
+    /// tool's maps, one in the language)
+    pub shared_names: bool,
     /// literals are drawn modulo this prime family: 0 = bn254
     pub prime: usize,
 }
@@ -739,6 +742,7 @@ impl Knobs {
             odd_permille: 0,
             odd_names: false,
             rare_shapes: b(1, 3),
+            shared_names: b(1, 10),
             max_stmts: 2 + rng.usize(14),
             max_depth: rng.usize(4),
             expr_depth: 1 + rng.usize(3),
@@ -2136,7 +2140,13 @@ pub fn gen_project(rng: &mut Rng, k: &Knobs, shape: &ProjectShape) -> Project {
         if is_fn {
             let cands: Vec<&str> = FUNCTION_NAMES.iter().copied().filter(|n| !used_names.iter().any(|u| u == n)).collect();
             // big projects run out of pool names
-            let base_name = if cands.is_empty() { format!("fn_{}", defs.len()) } else { rng.pick(&cands).to_string() };
+            let mut base_name = if cands.is_empty() { format!("fn_{}", defs.len()) } else { rng.pick(&cands).to_string() };
+            if k.shared_names && rng.chance(1, 2) {
+                let taken: Vec<String> = reg.templates.iter().map(|t| t.name.clone()).filter(|n| !reg.functions.iter().any(|f| &f.0 == n) && !CIRCOMLIB_NAMES.contains(&n.as_str())).collect();
+                if !taken.is_empty() && shape.name_suffix.is_empty() {
+                    base_name = rng.pick(&taken).clone();
+                }
+            }
             let name = format!("{base_name}{}", shape.name_suffix);
             used_names.push(base_name);
             let d = gen_function(rng, k, &reg, &name);
